@@ -22,8 +22,14 @@ def run_check(prop: str, tier: str, prog: Program | None = None, write: bool = T
         if tier not in tiers:
             continue
         ctx.rules_run.append(rid)
-        fn(ctx)
+        try:
+            fn(ctx)
+        except AnalysisError as e:
+            # one rule that cannot analyse the tree must not hide what the other rules of the property find
+            ctx.errors.append(f"{rid}: {e}")
     if not write:
+        if ctx.errors and not ctx.findings:
+            raise AnalysisError("; ".join(ctx.errors))
         return 0, ctx
     return finish(ctx, t0, mod.EXPLANATION, mod.RULE_TEXT, mod.TRUSTED), ctx
 
